@@ -6,7 +6,10 @@ import os
 HERE = os.path.dirname(os.path.dirname(os.path.abspath(__file__)))
 ALL = [f'C{i:02d}' for i in range(1, 21)]
 
-CHECKS = json.load(open(os.path.join(HERE, 'tools', 'manifest_checks.json')))
+import sys as _sys
+_sys.path.insert(0, os.path.join(HERE, 'tools'))
+import load_checks
+CHECKS = load_checks.load()
 
 PENDING = {}
 
